@@ -99,9 +99,13 @@ class Sim:
             return R.run_make(self.world, goals, env=env or self.env)
         elif self.backend == 'ninja':
             from . import refninja
-            return refninja.run(self.world, goals, env=env or self.env,
-                                seed=self.cfg.get('sched_seed', 0),
-                                jobs=self.cfg.get('jobs', 1))
+            self.nruns = getattr(self, 'nruns', 0) + 1
+            r = refninja.run(self.world, goals, env=env or self.env,
+                             seed=self.cfg.get('seed', 0) * 1000003 +
+                             self.nruns,
+                             jobs=self.cfg.get('jobs', 1))
+            self.count('ninja.schedule_events', len(r.schedule))
+            return r
         raise HarnessError('no executor for backend ' + self.backend)
 
     def regen_step(self, env=None):
